@@ -257,7 +257,7 @@ def reversible_fdtd(
         s_k, r_k = sr_tuple
         del r_k
         time_step = s_k[0]
-        return time_step >= start_time_step
+        return time_step > start_time_step
 
     def fdtd_bwd(
         residual,
